@@ -231,13 +231,16 @@ structure Sel where
   cols : Option (List Nat)
   deriving Repr
 
+/-- space and column numbers of the result: the whole space without a column key -/
+def keyPart (vs : Vars) : Option Item → Except Err (Vars × Option (List Nat))
+  | none => pure (vs, none)
+  | some it => do let (s, c) ← colKey vs it; pure (s, some c)
+
 /-- everything `__getitem__`/`__setitem__` derive from the index -/
 def Points.select (p : Points α) (ix : Index) : Except Err Sel := do
   let k := p.shape.length
   let (bitems, ck) ← splitIndex (k + 1) ix
-  let (sp, cols) ← match ck with
-    | none => pure (p.space.vars, none)
-    | some it => do let (s, c) ← colKey p.space.vars it; pure (s, some c)
+  let (sp, cols) ← keyPart p.space.vars ck
   -- more than one list/mask index: torch broadcasts them against each other (not modelled)
   if (bitems.filter Item.isAdvanced).length > 1 then throw .unmodelled
   let nonEll := (bitems.filter (· ≠ .ell)).length
@@ -370,6 +373,20 @@ def Points.joined (ps : List (Points α)) : Except Err (Points α) :=
        | none => throw .value                 -- `torch.cat([])`
        | some r => pure r
 
+/-- `torch.Tensor.repeat` on the full shape (`shape` ++ column axis) with one repeat per axis -/
+def Points.repeatCore (p : Points α) (shape reps : List Nat) : Except Err (Points α) :=
+  match reps.reverse with
+  | [] => throw .runtime
+  | rc :: brev =>
+    -- the column axis may not grow: `assert shape[-1] == space.dim`
+    if rc * p.space.dim ≠ p.space.dim then throw .assert
+    else
+      let sels := (shape.zip brev.reverse).map fun (s, r) =>
+        (⟨s, (List.replicate r (List.range s)).flatten, true⟩ : AxSel)
+      match gather p.data (flatIdx sels) with
+      | none => throw .index
+      | some rows => pure ⟨p.space, keptShape sels, rows⟩
+
 /-- `p.repeat(*ns)`: `torch.Tensor.repeat` with the repeats padded by ones up to the tensor rank -/
 def Points.repeat (p : Points α) (ns : List Int) : Except Err (Points α) := do
   -- negative repeats are rejected by torch, except that it does not look at them for a tensor without cells
@@ -377,21 +394,8 @@ def Points.repeat (p : Points α) (ns : List Int) : Except Err (Points α) := do
   let reps := ns.map Int.toNat
   let nd := p.shape.length + 1
   -- full (shape, repeats) including the column axis
-  let (shape, reps) :=
-    if reps.length ≤ nd then (p.shape, reps ++ List.replicate (nd - reps.length) 1)
-    else (List.replicate (reps.length - nd) 1 ++ p.shape, reps)
-  match reps.reverse with
-  | [] => throw .runtime
-  | rc :: brev =>
-    -- the column axis may not grow: `assert shape[-1] == space.dim`
-    if rc * p.space.dim ≠ p.space.dim then throw .assert
-    else
-      let breps := brev.reverse
-      let sels := (shape.zip breps).map fun (s, r) =>
-        (⟨s, (List.replicate r (List.range s)).flatten, true⟩ : AxSel)
-      match gather p.data (flatIdx sels) with
-      | none => throw .index
-      | some rows => pure ⟨p.space, keptShape sels, rows⟩
+  if reps.length ≤ nd then p.repeatCore p.shape (reps ++ List.replicate (nd - reps.length) 1)
+  else p.repeatCore (List.replicate (reps.length - nd) 1 ++ p.shape) reps
 
 /-- `p.unsqueeze(dim)` -/
 def Points.unsqueeze (p : Points α) (d : Int) : Except Err (Points α) :=
